@@ -36,6 +36,10 @@ func init() {
 			{Name: "SHARED-STATE", What: "package bgzf keeps no state that one Writer or Reader writes and another reads: every package-level variable is read-only, or an object pool whose objects are reset between instances (added after tenth-round seed C08-l: compressor buffers recycled through a sync.Pool as they were left)", Floor: 8,
 				Run:    ruleSharedState([]string{"bgzf"}),
 				Canary: func(cc *Ctx, r *Rep) { ruleSharedState([]string{"poolc"})(cc, r, "") }, WantFail: []string{"poolc.dirtyPool#shared-state", "poolc.seen#shared-state"}, WantPassMin: 3},
+			{Name: "SIZE-FIRST", What: "HasEOF takes the size from Size() or Stat() wherever the reader has one; Seek(0, current)+Len() is entered only after those type tests failed (bytes.Reader and strings.Reader have all three, and their offset may stand beyond the end) (added after sixteenth-round seed C08-q)", Floor: 2, Run: ruleSizeFirst},
+			{Name: "CUT-NO-CHANLEN", What: "no function of the writer reads len() or cap() of a channel: how many compressors are idle or how many blocks are queued depends on wc and the destination's speed, and nothing that decides where a block is cut may depend on it (added after sixteenth-round seed C08-r)", Floor: 5,
+				Run:    ruleNoChanLen([]string{"bgzf"}),
+				Canary: func(cc *Ctx, r *Rep) { ruleNoChanLen([]string{"poolc"})(cc, r, "") }, WantFail: []string{"poolc.chanLenBusy#chan-len"}, WantPassMin: 1},
 			{Name: "FLUSH-CUTS", What: "Writer.Flush answers nil without cutting a block only when the active block is empty: which writes start a member does not depend on the queue's length, hence not on wc or the destination's speed (added after ninth-round seed C08-i)", Floor: 1, Run: ruleFlushCuts},
 			{Name: "LATCH-ONE", What: "the error Writer.Close tests before it appends the EOF marker is the state setErr records (the same field, or Error()): the marker is written iff no write failed (added after ninth-round seed C08-j: the latch moved to an atomic.Value, Close still read the old field)", Floor: 1, Run: ruleLatchOne},
 			{Name: "FIELD-NEVER-SET", What: "every error field of package bgzf that is read is assigned a non-nil value somewhere: the latch Close consults before it writes the EOF marker is the one failures are recorded in (added after ninth-round seed C08-j)", Floor: 3, Run: ruleFieldNeverSet([]string{"bgzf"})},
